@@ -1,4 +1,4 @@
-"""PROTOTYPE C17: executed codemods == reference selection (ordered include, wildcards, excludes, eligibility)."""
+"""C17: executed codemods == reference selection (ordered include, wildcards, excludes, eligibility)."""
 import base64, collections, json, os, random, re, sys
 from vf.runner import run_check, Violation
 b64 = lambda b: base64.b64encode(b).decode()
@@ -36,14 +36,20 @@ def plan(tier, seed):
     ids = registry_ids()
     names = sorted({i.split("/")[1] for i in ids})
     def pat():
-        i = rnd.choice(ids); kind = rnd.choice(("prefix", "suffix", "infix", "origin", "all-origin", "mid"))
+        i = rnd.choice(ids); kind = rnd.choice(("prefix", "suffix", "infix", "origin", "all-origin", "mid", "star-matches-empty", "head-tail-overlap", "two-stars", "two-stars-overlap", "regex-metachar"))
         n = i.split("/")[1]; k = rnd.randint(2, max(2, len(n) - 1))
-        return {"prefix": i[: len(i) - len(n) + k] + "*", "suffix": "*" + n[-k:], "infix": "*" + n[1:k] + "*", "origin": i.split(":")[0] + ":*", "all-origin": i.split("/")[0] + "/*", "mid": i.split("/")[0] + "/" + n[:2] + "*" + n[-2:]}[kind]
+        a = rnd.randint(1, len(i) - 2); ov = rnd.randint(1, min(3, len(i) - a - 1)); b = rnd.randint(a, len(i) - 1)
+        return {"prefix": i[: len(i) - len(n) + k] + "*", "suffix": "*" + n[-k:], "infix": "*" + n[1:k] + "*", "origin": i.split(":")[0] + ":*", "all-origin": i.split("/")[0] + "/*", "mid": i.split("/")[0] + "/" + n[:2] + "*" + n[-2:],
+                "star-matches-empty": i[:a] + "*" + i[a:],                    # must select i (the star matches nothing)
+                "head-tail-overlap": i[:a + ov] + "*" + i[a:],                 # head and tail share characters of i: must NOT select i
+                "two-stars": i[:a] + "*" + i[a + 1:b] + "*" + i[b:] if b > a + 1 else i[:a] + "**" + i[a:],
+                "two-stars-overlap": i[:a] + "*" + i[max(0, a - 1):b] + "*" + i[b:],
+                "regex-metachar": i[:a].replace("-", ".") + "*"}[kind]         # '.', '+', '(' ... are literal characters in a pattern
     cases = []
     fixed = [(["pixee:python/secure-r*", "pixee:python/secure-*"], None), (["*secure"], None), (["*random"], None), (["pixee:python/secure-random", "nope:python/x", "pixee:python/url-sandbox"], None),
              (["pixee:python/url-sandbox", "pixee:python/secure-random"], None), (None, ["pixee:python/secure-random"]), (None, ["pixee:python/secure-*"]), (None, None), (["sonar:python/secure-random"], None), (["*"], None), (None, ["*"])]
     for inc, exc in fixed: cases.append((inc, exc, False)); cases.append((inc, exc, True))
-    n = 25 if tier == "quick" else 400
+    n = 60 if tier == "quick" else 800
     for _ in range(n):
         if rnd.random() < 0.5:
             inc = [rnd.choice((rnd.choice(ids), pat(), pat(), "unknown:python/" + rnd.choice(names))) for _ in range(rnd.randint(1, 4))]; exc = None
